@@ -6,7 +6,7 @@ ROOT = os.path.dirname(os.path.dirname(os.path.abspath(__file__)))
 CHECKS = {
  # id: (technique, level text, level note, design ref)
  "C04": ("exhaustive small-scope enumeration + proptest sampling against a reference broadcasting model (differential oracle)",
-         "Bounded generated-input search: all 14 400 ordered shape pairs of rank 1..4 / sizes 1..3 for add, sub, mul, div, axpy are enumerated (values bitwise against an index-arithmetic reference, refusal <=> panic), larger ranks and sizes are sampled with proptest. Exhaustive inside the stated scope, sampled beyond it; no proof.",
+         "Bounded generated-input search: all 14 400 ordered shape pairs of rank 1..4 / sizes 1..3 for add, sub, mul, div, axpy are enumerated (values bitwise against an index-arithmetic reference, refusal <=> panic), larger ranks and sizes are sampled with proptest. Exhaustive inside the stated scope, sampled beyond it; no proof. Since round 10 also sequences of two or three calls that reuse ONE array, its clones or reshaped views of its buffer (stale per-object / per-buffer / per-thread memo tables), each result judged against the reference. Single add / sub / mul / div results are compared bitwise on all data in the double-precision build (one correctly rounded scalar operation per element).",
          "Trusted: the reference broadcasting model in harness/refmodel (naive unravel/ravel loops, unit-tested), catch_unwind as the observation of refusal. Data chosen so every element pairing is distinct and exact.",
          "DESIGN.md section 5, C04"),
 }
@@ -17,15 +17,15 @@ CHECKS.update({
          "Trusted: reference operation definitions and dual-number arithmetic in harness/refmodel (unit-tested against finite differences and corgi's own test expectations). Exact data compared bitwise, otherwise magnitude-scaled tolerance 1e-9.",
          "DESIGN.md section 5, C02"),
  "C05": ("configuration-grid enumeration + proptest sampling against a triple-loop reference (differential oracle), refusal <=> panic",
-         "Bounded generated-input search: (rows,inner,cols) x transpose flags x 7x7 leading-dimension patterns x additive-term shapes x rank-1 forms, admissible and inadmissible variants; exact integer data compared bitwise.",
+         "Bounded generated-input search: (rows,inner,cols) x transpose flags x 7x7 leading-dimension patterns x additive-term shapes x rank-1 forms, admissible and inadmissible variants; exact integer data compared bitwise. Since round 10 also sequences of two or three calls that reuse ONE array, its clones or reshaped views of its buffer (stale per-object / per-buffer / per-thread memo tables), each result judged against the reference.",
          "Trusted: the reference matmul in harness/refmodel; catch_unwind as the observation of refusal. Two rank-1 operands with a transpose flag are outside the property's domain.",
          "DESIGN.md section 5, C05"),
  "C06": ("configuration-grid enumeration + proptest sampling against the six-loop sliding-window definition (differential oracle)",
-         "Bounded generated-input search over batch shape, depth, image size, filter count/size and both strides (images <=4x4 quick, <=6x6 thorough enumerated; up to 9x9 sampled); exact data compared bitwise.",
+         "Bounded generated-input search over batch shape, depth, image size, filter count/size and both strides (images <=4x4 quick, <=6x6 thorough enumerated; up to 9x9 sampled); exact data compared bitwise. Since round 10 also sequences of two or three calls that reuse ONE array, its clones or reshaped views of its buffer (stale per-object / per-buffer / per-thread memo tables), each result judged against the reference.",
          "Trusted: the reference convolution in harness/refmodel. Filters larger than the image and zero strides are outside the domain.",
          "DESIGN.md section 5, C06"),
  "C07": ("exhaustive small-scope enumeration + proptest sampling against reference definitions, plus validity predicates for softmax",
-         "Bounded generated-input search: all shapes of rank 1..4 / sizes 1..3 with every k, every reshape target (and refused targets) and every point-wise function; larger shapes and random values sampled.",
+         "Bounded generated-input search: all shapes of rank 1..4 / sizes 1..3 with every k, every reshape target (and refused targets) and every point-wise function; larger shapes and random values sampled. Since round 10 also sequences of two or three calls that reuse ONE array, its clones or reshaped views of its buffer (stale per-object / per-buffer / per-thread memo tables), each result judged against the reference.",
          "Trusted: reference definitions in harness/refmodel (same std float functions evaluated in f64).",
          "DESIGN.md section 5, C07"),
 })
@@ -52,7 +52,7 @@ CHECKS.update({
          "Trusted: unravel/ravel reference; bitwise comparison.",
          "DESIGN.md section 5, C16"),
  "C17": ("metamorphic testing: five fresh instances of a proptest-generated program (seeds s1, s2, alpha*s1+beta*s2, omitted, ones); relation checked on every stored gradient",
-         "Bounded generated-input search over programs x seed pairs (random, one-hot, sparse, mirrored) x coefficients; linearity bitwise in the exact sublanguage, magnitude-scaled tolerance otherwise; omitted seed == ones bitwise.",
+         "Bounded generated-input search over programs x seed pairs (random, one-hot, sparse, mirrored) x coefficients; linearity bitwise in the exact sublanguage, magnitude-scaled tolerance otherwise; omitted seed == ones bitwise. Since round 10 the omitted-seed relation is also checked on a root that already holds a gradient (after a seeded pass and after two omitted-seed passes from the same root).",
          "Trusted: nothing but corgi itself for expected values; the reference model supplies magnitudes for the tolerance only.",
          "DESIGN.md section 5, C17"),
 })
